@@ -2,7 +2,7 @@
 import re
 
 from ..core import AnchorError, norm_path, op_const, op_local, op_place
-from ..flow import arg_path_s, branch_on_enum_call, edge_facts, facts_at, has_fact, must_pass, _strip
+from ..flow import arg_path_s, branch_on_enum_call, edge_facts, facts_at, has_fact, must_pass, must_pass_cp, _strip
 from . import parser_common as PC
 
 CRATES = ["apollo_parser", "apollo_compiler"]
@@ -122,7 +122,8 @@ def rule_eof(prog, rep):
         ok = False
         where = []
         # level 1: inside the grammar function, after the construct call(s)
-        for fn, after_pat in ((g, construct), (efn, gram)):
+        keep = r"Parser::<'input>::(peek\w*|err\w*|bump|expect|push_\w+|pop|eat|limit_err)$|lexer::|syntax_tree::|" + construct + "|" + gram
+        for fn, after_pat in ((prog.inline(g, keep=keep), construct), (prog.inline(efn, keep=keep), gram)):
             cs = [c for c in fn.live_calls() if re.search(after_pat, c.name)]
             if not cs:
                 continue
@@ -136,7 +137,7 @@ def rule_eof(prog, rep):
                         K.add(c.block)
             K = set(k for k in K if any(k in fn.reachable_blocks([s]) for s in starts))
             if K:
-                passed, leak = must_pass(fn, starts, fn.return_blocks(), K)
+                passed, leak = must_pass_cp(fn, starts, fn.return_blocks(), K)
                 if passed:
                     ok = True
                     where.append("%s: end-of-input test at blocks %s" % (fn.name.split("::")[-1], sorted(K)))
@@ -151,8 +152,11 @@ def rule_eof(prog, rep):
 
 def rule_errmap(prog, rep):
     rep.floor("C07.ERRMAP", 3)
-    pc = prog.fn(r"apollo_compiler::parser::Parser::parse_common$")
-    # parse_common: loop over tree.errors(); every iteration pushes unless a try_into fails
+    pc0 = prog.fn(r"apollo_compiler::parser::Parser::parse_common$")
+    # parse_common: loop over tree.errors(); every iteration pushes unless a try_into fails.
+    # Private helpers of the loop body (e.g. one that builds the location and details and returns
+    # None for the 4 GiB case) are inlined so that the iteration is read as one CFG.
+    pc = prog.inline(pc0, keep=r"validation::DiagnosticList::push$")
     push = [c for c in pc.live_calls() if re.search(r"validation::DiagnosticList::push$", c.name)]
     nxt = [c for c in pc.live_calls() if re.search(r"Iterator>::next$|Iterator::next$", c.name)]
     if len(push) != 1 or len(nxt) != 1:
@@ -164,33 +168,30 @@ def rule_errmap(prog, rep):
     info, sw = r
     some_t = info["edges"].get("Some", info["otherwise"])
     # blocks from which the loop continues without pushing: must be under a try_into Err edge
-    reach = pc.reachable_blocks([some_t], avoid=[push[0].block])
-    skipping = nxt[0].block in reach
+    # one iteration = the paths from the Some edge back to the `next` call (or out of the function);
+    # a path that does not execute the push must have taken the Err edge of a try_into result
+    from ..tables import enum_paths
+    paths = enum_paths(pc, start=some_t, stops={nxt[0].block}, inner_loops="cut")
     ok = True
-    if skipping:
-        # find the edges that lead back without push: each must carry a `variant Err` fact on a try_into result
-        # collect switch blocks in reach whose successor bypasses push
-        n_guards = 0
-        for b in sorted(reach):
-            inf = pc.switch_info(b)
-            if not inf:
-                continue
-            for s in set(pc.succs()[b]):
-                sub = pc.reachable_blocks([s], avoid=[push[0].block])
-                if nxt[0].block in sub and push[0].block not in pc.reachable_blocks([s], avoid=[nxt[0].block]):
-                    # s definitely skips the push
-                    fs = _strip(edge_facts(pc, b, s))
-                    good = any(f[0] == "variant" and f[2] == "Err" and re.search(r"call:.*(TryInto|try_into|TryFrom|try_from)", f[1]) for f in fs)
-                    if good:
-                        n_guards += 1
-                    else:
-                        ok = False
-                        rep.finding("C07.ERRMAP", pc.name, "filter#%d" % b,
-                                    "a syntax error of the tree can be skipped (not copied into the DiagnosticList) on an edge that is not one of the 4 GiB try_into guards", pc.loc())
-        if ok:
-            rep.instance("C07.ERRMAP", "parse_common: every tree error is pushed; the only skips are %d try_into Err edges" % n_guards)
-    else:
-        rep.instance("C07.ERRMAP", "parse_common: every tree error is pushed")
+    guards = set()
+    n_push = 0
+    for atoms, end, blocks in paths:
+        if push[0].block in blocks:
+            n_push += 1
+            continue
+        errs = [f for f in _strip(atoms) if f[0] == "variant" and f[2] == "Err" and re.search(r"call:.*(TryInto|try_into|TryFrom|try_from)", f[1])]
+        if errs:
+            guards.update(f[1] for f in errs)
+        else:
+            ok = False
+            rep.finding("C07.ERRMAP", pc.name, "filter",
+                        "a syntax error of the tree can be skipped (not copied into the DiagnosticList) on a path that is not one of the 4 GiB try_into guards: %s" % ([f for f in _strip(atoms)][:6],), pc.loc())
+            break
+    if not n_push:
+        ok = False
+        rep.finding("C07.ERRMAP", pc.name, "no-push", "no path of the loop over tree.errors() pushes the error", pc.loc())
+    if ok:
+        rep.instance("C07.ERRMAP", "parse_common: every tree error is pushed; the only skips are %d try_into Err guards" % len(guards))
     # the iterator is tree.errors()
     ap = pc.apath(op_place(nxt[0].args[0]), transparent=False)
     # parse_type / parse_field_set
